@@ -53,6 +53,9 @@ def jobs(tier, seed):
         for l1, l2 in [(1, 1), (0, 2), (2, 0)] + ([(3, 3)] if tier == 'thorough' else []):
             for pat in (pats(l1 + l2) if l1 + l2 <= 3 else ['pppppp', 'spspsp', 'ssssss', 'ppssps']):
                 out.append(('frames.%d:%d+%d:%d.%s' % (d1, l1, d2, l2, pat), 'c_frames', dict(msgs=[[d1, l1], [d2, l2]], pattern=pat)))
+    for d in (0, 4, 125, 126, 128):
+        for L in (0, 1, 2):
+            out.append(('wire.dlci=%d.len=%d' % (d, L), 'c_wire', dict(dlci=d, n=L)))
     for kpull in (0, 1, 3, 5, 6, 7):
         out.append(('frames.interleaved.pull=%d' % kpull, 'c_frames', dict(msgs=[[10, 1], [4, 1]], pattern='pp', pull_before_last=kpull)))
     out.append(('frames.interleaved3.pull=2', 'c_frames', dict(msgs=[[10, 1], [5, 0], [4, 1]], pattern='pp', pull_before_last=2)))
@@ -395,6 +398,48 @@ def c_osmocon_write(hid, timeout_ms=60000):
     return j.stats
 
 
+def c_wire(hid, dlci, n, timeout_ms=60000):
+    """what goes over the wire for ONE message on any DLCI (the three that need escaping included) with arbitrary payload octets:
+    a flag, then no unescaped flag or zero octet until the closing flag, and the address/control/payload octets read back by
+    un-escaping are the ones sent"""
+    env = Env(hid, 'host', timeout_ms); j, ex, L = env.j, env.ex, env.L
+    env.call('@sercomm_init', [])
+    m = env.call('@sercomm_alloc_msgb', [C(16)]).ret
+    payload = [j.var(ex, 'payload[%d]' % i, 0, 255) for i in range(n)]
+    if n:
+        p = env.call('@msgb_put', [m, C(n)]).ret
+        for i, v in enumerate(payload): env.set_cell(p.obj, p.off.conc() + i, 1, v)
+    env.call('@sercomm_sendmsg', [C(dlci), m])
+    stream = []
+    for k in range(2 + 2 * (2 + n) + 2):
+        rc, ch = env.pull(); stream.append((rc, ch))
+        if rc.conc() == 0: break
+    j.witness(ex, []); j.memory_obligations(ex, [])
+    j.must_hold(ex, 'tx:drained-within-bound', [], stream[-1][0].e == 0)
+    live = [(rc.e == 1, ch) for rc, ch in stream]
+    j.must_hold(ex, 'starts-with-flag', [], z3.And(live[0][0], live[0][1].e == FLAG))
+    # interior octet k: pulled, and another octet is pulled after it
+    for k in range(1, len(live) - 1):
+        interior = z3.And(live[k][0], live[k + 1][0])
+        j.must_hold(ex, 'octet[%d]:no-bare-flag-or-zero-inside-the-frame' % k, [], z3.Implies(interior, z3.And(live[k][1].e != FLAG, live[k][1].e != 0)))
+        last = z3.And(live[k][0], z3.Not(live[k + 1][0]))
+        j.must_hold(ex, 'octet[%d]:last-octet-is-the-closing-flag' % k, [], z3.Implies(last, live[k][1].e == FLAG))
+    # un-escape the interior and compare with address, control, payload
+    want = [C(dlci), C(3)] + payload
+    pos = z3.IntVal(0); esc = z3.BoolVal(False); conds = []
+    for k in range(1, len(live) - 1):
+        interior = z3.And(live[k][0], live[k + 1][0]); c = live[k][1].e
+        val = z3.If(esc, (c + 32) % 256 if False else z3.If(c >= 32, z3.If((c / 32) % 2 == 1, c - 32, c + 32), c + 32), c)       # c xor 0x20
+        is_esc = z3.And(z3.Not(esc), c == ESC)
+        for wi, w in enumerate(want):
+            conds.append(z3.Implies(z3.And(interior, z3.Not(is_esc), pos == wi), val == w.e))
+        pos = z3.If(z3.And(interior, z3.Not(is_esc)), pos + 1, pos)
+        esc = z3.And(interior, is_esc)
+    j.must_hold(ex, 'unescaped-octets==address,control,payload', [], z3.And(z3.And(*conds) if conds else z3.BoolVal(True), pos == len(want)))
+    j.stats.extra['ir_steps'] = ex.steps
+    return j.stats
+
+
 def c_frames(hid, msgs, pattern, pull_before_last=None, timeout_ms=60000):
     """(b) whole frames: sendmsg for each message, pull everything, feed the receiver, compare deliveries.
     `pattern` fixes for every payload octet whether it is one of the three octets that need escaping ('s': 0x7E, 0x7D, 0x00)
@@ -554,6 +599,19 @@ def replay(body):
         w = min(n, 256)
         ok = pulled == written == w and data == st[:w] and (not dis or pulled == n) and (n >= 256 or dis)
         return (0, 'native agrees') if ok else (1, 'REPRODUCED on native build: %d octets pending: pulled %d, wrote %d (%s), poll disabled %d' % (n, pulled, written, 'in order' if data == st[:written] else 'content differs', dis))
+    if fn == 'c_wire':
+        pl = [i.get('payload[%d]' % x, 0) for x in range(sh['n'])]
+        rc, out = native(['send', sh['dlci'], sh['n']] + pl + ['loop'])
+        if rc != 0: return 1, 'REPRODUCED: native run failed (rc=%s): %s' % (rc, out[-600:])
+        wire = [int(x) for x in re.findall(r'w(\d+)', out)]
+        ok = len(wire) >= 4 and wire[0] == FLAG and wire[-1] == FLAG and all(x not in (FLAG, 0) for x in wire[1:-1])
+        un = []; e = False
+        for x in wire[1:-1]:
+            if e: un.append(x ^ 0x20); e = False
+            elif x == ESC: e = True
+            else: un.append(x)
+        ok = ok and un == [sh['dlci'], 3] + pl
+        return (0, 'native agrees: wire %s' % wire) if ok else (1, 'REPRODUCED on native build: DLCI %d payload %s goes over the wire as %s' % (sh['dlci'], pl, wire))
     if fn == 'c_resync':
         if sh['build'] != 'host': return 0, 'firmware-size variant has no native build (inline ARM assembly); see the host-size twin'
         size = 2048
